@@ -62,6 +62,10 @@ def cases(tier, seed):
     for names in (["point", "extended", "small"], ["blend2", "tiny", "negative"]):
         for clips in ([3, 4], [5, 5], [6, 3], [4, 10], [8, 4]):
             yield "clips", dict(names=names, clips=clips)
+    # priorized stages 1-2 (shape frozen) with exactly CIRCULAR input components whose meridian runs along a pixel axis: the
+    # frozen shape comes back with a and b equal up to rounding and a position angle of exactly 0 or 90
+    for kind in ("SIN_meridian", "CAR", "SIN_offaxis"):
+        yield "circular", dict(kind=kind)
     yield "big", dict(kind="blank")
     yield "big", dict(kind="nan_image")
     yield "big", dict(kind="grid7")
@@ -320,6 +324,58 @@ def ev_clips(case, ctx):
             os.remove(f)
 
 
+def ev_circular(case, ctx):
+    from AegeanTools.models import ComponentSource
+    d = os.environ["VERIF_SCRATCH"]
+    kind = case["kind"]
+    shape = (128, 120)
+    hdr = scenes.scene_header(shape)
+    if kind == "CAR":
+        hdr = scenes.scene_header(shape, crval=(215.0, 0.0))
+        hdr["CTYPE1"], hdr["CTYPE2"] = "RA---CAR", "DEC--CAR"
+        hdr["CRPIX2"] = hdr["CRPIX2"] - 33.0 / abs(hdr["CDELT2"]) * 0 - 4000.0     # the image sits ~11 degrees from the reference latitude
+    rows, cols = shape
+    cpx = hdr["CRPIX1"] - 1.0
+    spots = [(12.0 + 13.0 * k, cpx if kind != "SIN_offaxis" else cpx + 17.3 + 3.1 * k) for k in range(9)]
+    spots += [(20.0 + 25.0 * k, 20.0) for k in range(4)] + [(30.0 + 22.0 * k, cols - 22.0) for k in range(4)]
+    ii, jj = np.mgrid[0:rows, 0:cols]
+    img = np.zeros(shape)
+    for j, (r, c) in enumerate(spots):
+        img += (0.5 + 0.02 * j) * np.exp(-0.5 * (((ii - r) / 1.7) ** 2 + ((jj - c) / 1.7) ** 2))
+    f = os.path.join(d, "c03z.fits")
+    scenes.write_image(f, hdr, img)
+    sig = "circular=" + kind
+    try:
+        blind = [s_ for s_ in scenes.finder().find_sources_in_image(f, rms=scenes.RMS, bkg=0.0, cores=1, docov=False) if isinstance(s_, ComponentSource)]
+    except Exception as e:
+        ctx.violation("blind run raised %r (%s)" % (e, sig), "raise|" + sig)
+        return
+    cat = []
+    for s_ in blind:
+        c = _copy(s_)
+        c.a = c.b = 42.5
+        c.pa = 0.0
+        cat.append(c)
+    try:
+        for stage, regroup in ((1, True), (2, True), (1, False), (2, False)):
+            ctx.count("runs")
+            msig = "%s,stage=%d,regroup=%s" % (sig, stage, regroup)
+            ctx.nontrivial(msig)
+            try:
+                out = scenes.finder().priorized_fit_islands(f, catalogue=[_copy(c) for c in cat], rms=scenes.RMS, bkg=0.0, cores=1, docov=False,
+                                                            stage=stage, doregroup=regroup)
+            except Exception as e:
+                ctx.violation("priorized fit of circular components raised %r (%s)" % (e, msig), "raise|" + msig)
+                continue
+            ctx.outcome("circular_n=%d" % len(out))
+            for s_ in out:
+                ctx.outcome("circular_pa=%s" % ("90" if s_.pa == 90 else "0" if s_.pa == 0 else "other"))
+            check_components(out, ctx, msig, priorized=True, input_uuids=set(c.uuid for c in cat))
+    finally:
+        if os.path.exists(f):
+            os.remove(f)
+
+
 def ev_blankrms(case, ctx):
     from AegeanTools.models import ComponentSource, IslandSource
     d = os.environ["VERIF_SCRATCH"]
@@ -561,4 +617,4 @@ def ev_cli(case, ctx):
 
 
 def evaluate(clause, case, ctx):
-    dict(scene=ev_scene, big=ev_big, history=ev_history, cli=ev_cli, rejects=ev_rejects, blankrms=ev_blankrms, clips=ev_clips)[clause](case, ctx)
+    dict(scene=ev_scene, big=ev_big, history=ev_history, cli=ev_cli, rejects=ev_rejects, blankrms=ev_blankrms, clips=ev_clips, circular=ev_circular)[clause](case, ctx)
